@@ -82,13 +82,31 @@ inline void shift_right(T *first, SizeType n, SizeType count) noexcept {
   (void)amc::uninitialized_relocate_n(first, n, first + count);
 }
 
+/// Undo 'shift_right(first, n, count)' after 'fill_after_shift' / 'copy_after_shift' exited by an exception:
+/// move the 'n' shifted elements back to 'first' and leave only uninitialized memory from 'first + n'.
+/// Requirements: n != 0, count != 0, the first min(n, count) slots from 'first' still hold an object (assigned or
+/// moved-from) and the next slots up to 'first + count' are uninitialized memory.
+template <class T, class SizeType, typename std::enable_if<!amc::is_trivially_relocatable<T>::value, bool>::type = true>
+void unshift_right(T *first, SizeType n, SizeType count) noexcept(is_shift_nothrow<T>::value) {
+  std::move(first + count, first + count + n, first);
+  // the objects beyond 'first + n' are now all moved-from: the last min(n, count) slots of the shifted range
+  amc::destroy_n(first + std::max(n, count), std::min(n, count));
+}
+
+/// Trivially relocatable types: the slots starting at 'first' are uninitialized memory, relocate the elements back.
+template <class T, class SizeType, typename std::enable_if<amc::is_trivially_relocatable<T>::value, bool>::type = true>
+inline void unshift_right(T *first, SizeType n, SizeType count) noexcept {
+  (void)amc::uninitialized_relocate_n(first + count, n, first);
+}
+
 /// Fill 'count' 'v' values at memory starting at 'first', with first 'n' slots on initialized memory,
 /// and next 'count - n' slots on uninitialized memory if there is overlap
 template <class T, class SizeType, typename std::enable_if<!amc::is_trivially_relocatable<T>::value, bool>::type = true>
 inline void fill_after_shift(T *first, SizeType n, SizeType count, const T &v) {
   if (n < count) {
-    std::uninitialized_fill_n(first + n, count - n, v);
+    // assign first: if an assignment throws, the slots from 'first + n' are still uninitialized for 'unshift_right'
     std::fill_n(first, n, v);
+    std::uninitialized_fill_n(first + n, count - n, v);
   } else {
     std::fill_n(first, count, v);
   }
@@ -1391,7 +1409,12 @@ class VectorImpl : public VectorDestr<T, Alloc, SizeType, WithInlineElements, Gr
         std::uninitialized_fill_n(pos, count, newV);
       } else {
         shift_right(pos, nElemsToShift, count);
-        fill_after_shift(pos, nElemsToShift, count, newV);
+        try {
+          fill_after_shift(pos, nElemsToShift, count, newV);
+        } catch (...) {
+          unshift_right(pos, nElemsToShift, count);
+          throw;
+        }
       }
       this->setSize(this->size() + count);
     } else {
@@ -1420,7 +1443,12 @@ class VectorImpl : public VectorDestr<T, Alloc, SizeType, WithInlineElements, Gr
         amc::uninitialized_copy_n(first, count, pos);
       } else {
         shift_right(pos, nElemsToShift, static_cast<SizeType>(count));
-        copy_after_shift(first, nElemsToShift, static_cast<SizeType>(count), pos);
+        try {
+          copy_after_shift(first, nElemsToShift, static_cast<SizeType>(count), pos);
+        } catch (...) {
+          unshift_right(pos, nElemsToShift, static_cast<SizeType>(count));
+          throw;
+        }
       }
       this->setSize(static_cast<SizeType>(this->size() + count));
     } else {
